@@ -369,5 +369,12 @@ func TestReplay(t *testing.T) {
 			}
 			return judgeDump(c)
 		},
+		"rewrite": func(raw json.RawMessage) error {
+			var c rewriteCase
+			if err := vt.Decode(raw, &c); err != nil {
+				return err
+			}
+			return judgeRewrite(c)
+		},
 	})
 }
